@@ -22,6 +22,14 @@ def scratch_root():
     return None
 
 
+def odd_root():
+    """Scratch parent whose own name holds a blank and glob metacharacters: directory paths given to the CLI are data, not
+    patterns (a tool that globs or shell-quotes its -p argument shows up at once)."""
+    d = os.path.join(scratch_root(), 'mc pel dirs [v1]')
+    os.makedirs(d, exist_ok=True)
+    return d
+
+
 class OsProxy:
     """Stands in for the `os` name inside pel.peltool.peltool only."""
 
